@@ -127,6 +127,8 @@ class SimFile:
         end = len(data) if size is None or size < 0 else self.pos + size
         out = bytes(data[self.pos:end])
         self.pos += len(out)
+        # a real thread can be descheduled between obtaining the data and using it
+        fs.sim.seam('fs.read.done')
         return out
 
     def write(self, b):
@@ -279,7 +281,9 @@ def make_simdb_class(world, Storage):
                 w = getattr(sim.current, 'w', None)
                 if w is not None and w.tag.endswith('advance_block'):
                     sim.probes['spend_from_db'] += 1
-            return self.d.get(bytes(key))
+            v = self.d.get(bytes(key))
+            sim.seam('db.get.done')
+            return v
 
         def put(self, key, value):
             sim = world.sim
